@@ -222,7 +222,7 @@ func runC20BT(c C20BTCase, ev *vt.Ev) *vt.Failure {
 
 func TestC20BT(t *testing.T) {
 	vt.Prop[C20BTCase]{ID: "C20", Test: "TestC20BT",
-		Rule: "Bigtable: after a drawn valid setup program, 1-12 probes per case on 3 engines: ReadRows whose client disconnects in the middle of a multi-message stream, structure-level perturbations of every implemented RPC (unset oneofs / sub-messages, MinInt/MaxInt/negative numbers, empty and 64 KiB names and keys, missing tables, duplicated entries, 0 or 200 sub-filters, NaN/Inf sample probability, 10^4 ranges, catastrophic regexes) and byte-level mutations (flip, insert, delete, truncate, splice) of marshalled valid/hostile requests, sent to the right or a wrong RPC (only bytes that proto.Unmarshal accepts reach a handler, as with gRPC); oracle: no panic, a gRPC status, the call returns within 60s, and afterwards the canary table reads back identical, ListTables shows it and a fresh write+read works; non-trivial = at least one perturbed request reached a handler",
+		Rule: "Bigtable: after a drawn valid setup program, 1-12 probes per case on 3 engines: ReadRows whose client disconnects in the middle of a multi-message stream, structure-level perturbations of every implemented RPC (unset oneofs / sub-messages, MinInt/MaxInt/negative numbers, empty and 64 KiB names and keys, missing tables, duplicated entries, 0 or 200 sub-filters, NaN/Inf sample probability, 10^4 ranges, catastrophic regexes) and byte-level mutations (flip, insert, delete, truncate, splice) of marshalled valid/hostile requests, sent to the right or a wrong RPC (only bytes that proto.Unmarshal accepts reach a handler, as with gRPC); oracle: no panic, a gRPC status, the call returns (a call whose goroutine sits in a lock / channel wait in 5 samples after 60 s is a hang; a slow one is waited for), and afterwards the canary table reads back identical, ListTables shows it and a fresh write+read works; non-trivial = at least one perturbed request reached a handler",
 		Gen:  genC20BT(), Run: runC20BT}.Main(t)
 }
 
@@ -331,6 +331,6 @@ func runC20Mix(c C20MixCase, ev *vt.Ev) *vt.Failure {
 
 func TestC20BTMix(t *testing.T) {
 	vt.Prop[C20MixCase]{ID: "C20", Test: "TestC20BTMix",
-		Rule: "Bigtable, under the Go race detector: 4-8 goroutines x 5-40 direct calls with the wire round-trip (the response marshal after return is what races with schema changes in the real server): create / delete / re-create table while reading and writing it, ModifyColumnFamilies while GetTable / ReadRows / MutateRow, DropRowRange(all / prefix) during multi-message scans, consistency-token RPCs, SampleRowKeys; oracle: no race report, no panic or fatal runtime error (the shard process must exit normally), all calls return within 180s, streams well formed, canary data intact; non-trivial = >=40 calls completed",
+		Rule: "Bigtable, under the Go race detector: 4-8 goroutines x 5-40 direct calls with the wire round-trip (the response marshal after return is what races with schema changes in the real server): create / delete / re-create table while reading and writing it, ModifyColumnFamilies while GetTable / ReadRows / MutateRow, DropRowRange(all / prefix) during multi-message scans, consistency-token RPCs, SampleRowKeys; oracle: no race report, no panic or fatal runtime error (the shard process must exit normally), all calls return (same hang rule), streams well formed, canary data intact; non-trivial = >=40 calls completed",
 		Gen:  genC20Mix(), Run: runC20Mix}.Main(t)
 }
